@@ -4,6 +4,8 @@
 #include "common.h"
 #include <asl/String.h>
 #include <asl/Array.h>
+#include <asl/Map.h>
+#include <algorithm>
 #include <string>
 using namespace asl;
 using namespace vh;
@@ -117,7 +119,7 @@ static bool hexok(const std::string& h)
 static bool argsok(const Toks& t)
 {
 	static const char* all[] = {"new", "newc", "assign", "append", "last", "contains", "starts", "ends", "cmp", "concat",
-		"rconcat", "split", "splitjoin", "join", "replace", "atoi", "atol", 0};
+		"rconcat", "split", "splitjoin", "join", "replace", "atoi", "atol", "splitdic", 0};
 	const std::string& op = t[0];
 	for (int k = 0; all[k]; k++)
 		if (op == all[k]) { for (size_t i = 1; i < t.size(); i++) if (!hexok(t[i])) return false; return true; }
@@ -158,7 +160,20 @@ static std::string step(const Toks& t)
 	if (op == "refill" && na == 2) { int n = (int)num(t[1]); c.resize(n, false); memset(c.data(), (int)num(t[2]), n); return show(c); }
 	if (op == "reserve" && na == 1) { c.resize((int)num(t[1]), true, false); return show(c); }
 	if (op == "pokefix" && na == 1) { int k = (int)(num(t[1]) % (c.length() + 1)); c.data()[k] = 0; c.fix(); return show(c); }
+	if (op == "replaceme" && na == 2) { c.replaceme((char)num(t[1]), (char)num(t[2])); return show(c); }
 	// ---- queries
+	if (op == "splitdic" && na == 2) {
+		Exact a(unhex(t[1])), b(unhex(t[2]));
+		if (a.n == 0) return "err empty";
+		Dic<String> d = c.split(S(a), S(b));
+		std::vector<std::pair<std::string, std::string> > out;
+		foreach2(String& k, const String& v, d)
+			out.push_back(std::make_pair(std::string(*k, k.length()), std::string(*v, v.length())));
+		std::sort(out.begin(), out.end());
+		std::string r = str((long long)out.size());
+		for (size_t i = 0; i < out.size(); i++) r += " " + hex(out[i].first) + ":" + hex(out[i].second);
+		return r;
+	}
 	if (op == "indexof" && na == 2) { Exact d(unhex(t[1])); int i0 = (int)(num(t[2]) % (c.length() + 1)); return str(c.indexOf((const char*)d.p, i0)); }
 	if (op == "indexofc" && na == 2) { int i0 = (int)(num(t[2]) % (c.length() + 1)); return str(c.indexOf((char)num(t[1]), i0)); }
 	if (op == "lastc" && na == 1) return str(c.lastIndexOf((char)num(t[1])));
